@@ -54,6 +54,7 @@ func TestVerifC06F(t *testing.T) {
 		} else {
 			spec = c04GenSpec(r, i)
 			spec.Plan = ""
+			spec.Slow, spec.K = false, 0 // the recipients are judged against a table that holds every responder
 			if spec.Op == "pk" {
 				spec.Op = []string{"search", "get"}[r.Intn(2)]
 				spec.Node = ""
